@@ -128,7 +128,10 @@ CMD_NAMES = ['x', 'foo', 'emph', 'textit', 'alpha', 'ref', 'cite', 'bar*',
              'vspace*', 'y', 'text', 'BraceGroup', 'displaymath',
              # fragments of the names the reader dispatches on (item, begin,
              # end): \it and \em are ordinary commands
-             'it', 'em', 'en', 'beg']
+             'it', 'em', 'en', 'beg',
+             # ... and EXTENSIONS of them (\itemsep, \endgraf): ordinary
+             # commands too; they neither start nor close an item / environment
+             'itemsep', 'endgraf', 'beginx']
 # 'listings' / 'verbatimbox' merely START WITH a verbatim-like name
 ENV_NAMES = ['a', 'b', 'center', 'quote', 'tabular', 'document', 'figure*', 'listings', 'verbatimbox']
 LIST_ENV_NAMES = ['itemize', 'enumerate', 'description']
